@@ -221,3 +221,60 @@ pub fn runny_ints(rng: &mut Rng) -> Pair {
         (b, a)
     }
 }
+
+/// Many small hunks: `blocks` blocks, each a unique separator followed by a short stretch over
+/// {0, 1} that differs between the two sides by one or two repetitions (hundreds to thousands of
+/// raw ops in one diff, most hunks slidable).
+pub fn many_hunks(rng: &mut Rng, blocks: usize) -> Pair {
+    let (mut a, mut b) = (vec![], vec![]);
+    for i in 0..blocks {
+        let sep = 10 + i as u32;
+        a.push(sep);
+        b.push(sep);
+        let l = rng.range(1, 4);
+        let x: Vec<u32> = (0..l).map(|_| rng.below(2) as u32).collect();
+        let mut y = x.clone();
+        for _ in 0..rng.range(1, 2) {
+            let p = rng.below(y.len() + 1);
+            if rng.chance(1, 4) && !y.is_empty() {
+                y.remove(p.min(y.len() - 1));
+            } else {
+                let v = if p < y.len() && rng.chance(2, 3) { y[p] } else { rng.below(2) as u32 };
+                y.insert(p, v);
+            }
+        }
+        if rng.chance(1, 2) {
+            a.extend(x);
+            b.extend(y);
+        } else {
+            a.extend(y);
+            b.extend(x);
+        }
+    }
+    (a, b)
+}
+
+/// One representative per relabelling class of all pairs with both lengths <= maxlen over at most
+/// `alpha` symbols (old ++ new is a restricted-growth string).
+pub fn canonical_pairs(alpha: u32, maxlen: usize) -> Vec<Pair> {
+    fn rec_gen(cur: &mut Vec<u32>, maxsym: u32, alpha: u32, maxtotal: usize, f: &mut dyn FnMut(&[u32])) {
+        f(cur);
+        if cur.len() == maxtotal {
+            return;
+        }
+        for sy in 0..=(maxsym.min(alpha - 1)) {
+            cur.push(sy);
+            rec_gen(cur, if sy == maxsym { maxsym + 1 } else { maxsym }, alpha, maxtotal, f);
+            cur.pop();
+        }
+    }
+    let mut v = vec![];
+    rec_gen(&mut vec![], 0, alpha, 2 * maxlen, &mut |st| {
+        let lo = st.len().saturating_sub(maxlen);
+        let hi = st.len().min(maxlen);
+        for cut in lo..=hi {
+            v.push((st[..cut].to_vec(), st[cut..].to_vec()));
+        }
+    });
+    v
+}
